@@ -16,10 +16,40 @@ import (
 func HarnessC29Tile() {
 	maxN := 2
 	if zz.Tier() == 1 {
-		maxN = 3
+		maxN = 2
 	}
 	n := zz.IntRange(0, maxN)
-	text := zz.String(n)
+	zzC29Body(zz.String(n))
+}
+
+var zzXPrefixes = []string{
+	"//",            // line comment
+	"//c\r",         // line comment ending in CR
+	"/*",            // block comment start
+	"a\xe2\x80",     // identifier followed by a partial 3-byte rune (U+2000..U+203F: format characters)
+	"\"\\x",         // string with a hex escape being started
+	"\"\\u12",       // string with a unicode escape being started
+	"'\\",           // string ending in a backslash
+	"1",             // number
+	"1.",            // number with fraction
+	"0x",            // hex number
+	"(",             // open bracket
+	"a ",            // identifier and space
+}
+
+// HarnessC29Tmpl: the same assertions on longer inputs: a concrete prefix followed by 0..1
+// (quick) / 0..2 (thorough) arbitrary bytes.
+func HarnessC29Tmpl() {
+	p := zzXPrefixes[zz.Choice(len(zzXPrefixes))]
+	k := 1
+	if zz.Tier() == 1 {
+		k = 2
+	}
+	zzC29Body(p + zz.String(zz.IntRange(0, k)))
+}
+
+func zzC29Body(text string) {
+	n := len(text)
 	// texts the lexer's prelude rejects wholesale (not UTF-8, or looking like UTF-16: a NUL in
 	// the first two bytes) produce one diagnostic and no tokens by design: outside the claim
 	zz.Assume(utf8.ValidString(text))
